@@ -5,6 +5,7 @@ package cluster
 
 import (
 	"fmt"
+	"io"
 	"sort"
 	"time"
 
@@ -152,6 +153,10 @@ func readMapStringString(r *messages.Reader) (map[string]string, error) {
 	if n > maxMapEntries {
 		return nil, fmt.Errorf("map length %d exceeds max %d", n, maxMapEntries)
 	}
+	// 每个条目至少占 8 字节（两个长度前缀）：条目数超过剩余数据可容纳的数量即为损坏数据，分配前拒绝
+	if int(n) > r.RemainingSize()/8 {
+		return nil, io.ErrUnexpectedEOF
+	}
 	m := make(map[string]string, n)
 	for i := uint32(0); i < n; i++ {
 		k, err := r.ReadString()
@@ -217,6 +222,10 @@ func readClusterView(r *messages.Reader) (*ClusterView, error) {
 	var memLen uint32
 	if err := r.ReadInto(&viewID, &epoch, &timestamp, &memLen); err != nil {
 		return nil, err
+	}
+	// 每个成员至少占 5 字节（ID 长度前缀 + 存在标记）：成员数超过剩余数据可容纳的数量即为损坏数据，分配前拒绝
+	if int(memLen) > r.RemainingSize()/5 {
+		return nil, io.ErrUnexpectedEOF
 	}
 	members := make(map[string]*NodeState, memLen)
 	for i := uint32(0); i < memLen; i++ {
